@@ -298,6 +298,7 @@ def handleLine (st0 : DrvSt) (line : String) : DrvSt × String :=
         let r : Option (List V) := queries.mapM (fun q => do
           let b ← match q with
             | .list [.sym "shape", req, a] => do pure (acceptsShape (← req.nats?) (← arg a))
+            | .list [.sym "all", .list reqs, .list as] => do pure (acceptsAll (← reqs.mapM (·.nats?)) (← as.mapM arg))
             | .list [.sym "vec2", a] => do pure (acceptsVec2 (← arg a))
             | .list [.sym "viewport", a] => do pure (acceptsViewport (← arg a))
             | .list [.sym "coupled", a, b, c] => do pure (acceptsCoupled (← arg a) (← arg b) (← arg c))
@@ -318,6 +319,7 @@ def handleLine (st0 : DrvSt) (line : String) : DrvSt × String :=
                 | .list [.sym "add", i, it] => do pure (SOp.add (← i.nat?) (← it.nat?))
                 | .list [.sym "remove", i, k] => do pure (SOp.remove (← i.nat?) (← k.nat?))
                 | .list [.sym "edit", i, k] => do pure (SOp.edit (← i.nat?) (← k.nat?))
+                | .list [.sym "assign", i, items] => do pure (SOp.assign (← i.nat?) (← items.nats?))
                 | _ => none
               let r := s.step op
               let tl ← goSt r.1 rest
